@@ -25,8 +25,9 @@ a crash point ("the process dies before the next operation"):
                                                            those n records
     W3  after close() returned and the file is accepted ==> the reader returns exactly the atom records the finished
                                                            file holds by the independent parser (a rejected finished
-                                                           file, a writer that raises, or a file that does not hold the
-                                                           records given to writeline are C13's subject: UNDECIDED)
+                                                           file or a writer that raises is C13's subject: UNDECIDED;
+                                                           whether the file holds the values given to writeline is
+                                                           C13's subject too and only noted in the sample)
     W4  every byte prefix of the bytes flushed just
         before close() is called (torn last write)     ==> rejected ("stops at any point before it is closed")
 
@@ -778,10 +779,8 @@ def check_session(script, workdir, reader, log=None, err=None):
             want = oracle_parse(finished, need_full_box=False)["records"]
         except OracleError:
             want = None
-    if want is not None and want != [tuple(r) for r in script["records"]]:
-        # what the writer puts on disk for given records is C13's subject; noted, never refuted here
-        fails.append(("?W3", len(log) - 1, "finished file holds %s by the independent parser, writeline was given %s (C13's subject)"
-                      % (str(want)[:160], str(script["records"])[:160])))
+    # what the writer puts on disk for the given records (rounding, layout) is C13's subject: only noted in the sample
+    stats["finished_file_holds_the_given_records"] = (want == [tuple(r) for r in script["records"]]) if want is not None else None
     cache = {}
     for i, (phase, op, data) in enumerate(log):
         if data not in cache:
@@ -848,7 +847,8 @@ def task_writer(n, tier, seed):
                 acc.route(clause, "%s: %s" % (sname, msg), cex)
             if acc.sample is None or (not declare and "backfilled" not in acc.sample.get("session", "")):
                 acc.sample = {"session": sname, "crash_points": [[ph, op, len(d)] for (ph, op, d) in log],
-                              "accepted_inside_close": stats["accepted_inside_close"]}
+                              "accepted_inside_close": stats["accepted_inside_close"],
+                              "finished_file_holds_the_given_records": stats.get("finished_file_holds_the_given_records")}
     out += acc.obligations()
     # vacuity (machinery only): the proxy saw at least one low-level operation inside close() in every session.
     # Today: declared = seek, box, newline; back-filled = seek, count, seek, box, newline.  No clause depends on
